@@ -5,6 +5,7 @@ use std::time::Duration;
 use scrut::escaping::Escaper;
 use scrut::expectation::ExpectationMaker;
 use scrut::rules::registry::RuleRegistry;
+use scrut::rules::rule::RuleMaker;
 use serde_json::json;
 use serde_json::Value;
 
@@ -51,6 +52,13 @@ fn one(id: u64, v: &Value, seed: u64) -> Value {
         pre.push(last + t);
     }
     let text = pre.last().unwrap().clone();
+    // a maker over ANOTHER registry (only `equal`) is used first, in the same process: what a line means is a matter of the
+    // registry of the maker that parses it, not of whichever maker happened to parse before (library users may hold several)
+    {
+        let mut reduced = RuleRegistry::new();
+        reduced.register(scrut::rules::equal::EqualRule::make, &["equal", "eq"]);
+        let _ = guarded(|| ExpectationMaker::new(reduced).parse("warm up (equal)").map(|_| ()));
+    }
     let maker = ExpectationMaker::new(RuleRegistry::default());
     let obs = match guarded(|| maker.parse(&text)) {
         Err(msg) => json!({"result": "panic", "kind": "", "expr": "", "quant": "", "rt": [], "msg": msg}),
